@@ -3,6 +3,7 @@ package harness
 import (
 	"fmt"
 	"strings"
+	"sync"
 )
 
 // FakeTB implements rapid.TB and records everything rapid tells the test framework.
@@ -11,8 +12,9 @@ type FakeTB struct {
 	Events  []TBEvent
 	IsFail  bool
 	IsSkip  bool
-	Stopped bool // FailNow / SkipNow called
-	Quiet   bool // do not store Log events
+	Stopped bool       // FailNow / SkipNow called
+	Quiet   bool       // do not store Log events
+	mu      sync.Mutex // like testing.T, the fake TB may be used from several goroutines
 }
 
 type TBEvent struct {
@@ -25,7 +27,19 @@ type tbSkip struct{}
 
 func NewTB(name string) *FakeTB { return &FakeTB{TName: name} }
 
-func (t *FakeTB) ev(kind, text string) { t.Events = append(t.Events, TBEvent{kind, text}) }
+func (t *FakeTB) ev(kind, text string) {
+	t.mu.Lock()
+	t.Events = append(t.Events, TBEvent{kind, text})
+	t.mu.Unlock()
+}
+
+func (t *FakeTB) set(fail, skip, stop bool) {
+	t.mu.Lock()
+	t.IsFail = t.IsFail || fail
+	t.IsSkip = t.IsSkip || skip
+	t.Stopped = t.Stopped || stop
+	t.mu.Unlock()
+}
 
 func (t *FakeTB) Helper()      {}
 func (t *FakeTB) Name() string { return t.TName }
@@ -45,34 +59,36 @@ func (t *FakeTB) Skipf(format string, args ...any) {
 }
 func (t *FakeTB) Skip(args ...any) { t.ev("skip", fmt.Sprintln(args...)); t.SkipNow() }
 func (t *FakeTB) SkipNow() {
-	t.IsSkip = true
-	t.Stopped = true
+	t.set(false, true, true)
 	t.ev("skipnow", "")
 	panic(tbSkip{})
 }
 func (t *FakeTB) Errorf(format string, args ...any) {
 	t.ev("error", fmt.Sprintf(format, args...))
-	t.IsFail = true
+	t.set(true, false, false)
 }
-func (t *FakeTB) Error(args ...any) { t.ev("error", fmt.Sprintln(args...)); t.IsFail = true }
+func (t *FakeTB) Error(args ...any) { t.ev("error", fmt.Sprintln(args...)); t.set(true, false, false) }
 func (t *FakeTB) Fatalf(format string, args ...any) {
 	t.ev("fatal", fmt.Sprintf(format, args...))
-	t.IsFail = true
+	t.set(true, false, false)
 	t.FailNow()
 }
 func (t *FakeTB) Fatal(args ...any) {
 	t.ev("fatal", fmt.Sprintln(args...))
-	t.IsFail = true
+	t.set(true, false, false)
 	t.FailNow()
 }
 func (t *FakeTB) FailNow() {
-	t.IsFail = true
-	t.Stopped = true
+	t.set(true, false, true)
 	t.ev("failnow", "")
 	panic(tbStop{})
 }
-func (t *FakeTB) Fail()        { t.IsFail = true; t.ev("fail", "") }
-func (t *FakeTB) Failed() bool { return t.IsFail }
+func (t *FakeTB) Fail() { t.set(true, false, false); t.ev("fail", "") }
+func (t *FakeTB) Failed() bool {
+	t.mu.Lock()
+	defer t.mu.Unlock()
+	return t.IsFail
+}
 
 // Text returns all error/fatal texts joined.
 func (t *FakeTB) ErrorText() string {
